@@ -9,6 +9,7 @@ use crate::engine::wire::{self, Image, Kind};
 use crate::engine::{enum_check, no_panic, panic_sig, CheckDef, Ctx, Fail, Rec, Tier, R};
 use serde::{Deserialize, Serialize};
 use serde_json::json;
+use proptest::strategy::Strategy;
 use std::cell::RefCell;
 use std::io::{Read, Write};
 use std::process::{Child, ChildStdin, ChildStdout, Command, Stdio};
@@ -336,8 +337,71 @@ pub fn checks() -> Vec<CheckDef> {
     v
 }
 
+// ------------------------------------------------------------------- channel id text decoder
+
+#[derive(Clone, Debug, Serialize, Deserialize)]
+pub enum CidText {
+    /// the shapes C15 uses (valid, wrong length <80 bytes, one altered character, printable garbage)
+    Shape(super::c15::TextCase),
+    /// base64 of a payload of any length, optionally with the padding stripped or extra '=' added
+    Payload(Vec<u8>, u8),
+    /// an honest 32-byte id's text followed by more base64 characters
+    Extended(Vec<u8>, Vec<u8>),
+    /// arbitrary unicode
+    Unicode(String),
+}
+
+fn cid_strategy(t: Tier) -> impl Strategy<Value = CidText> {
+    use proptest::prelude::*;
+    let long = t.pick(2048usize, 16 * 1024);
+    prop_oneof![
+        3 => super::c15::text_strategy_pub(t).prop_map(CidText::Shape),
+        3 => (proptest::collection::vec(any::<u8>(), 0..160), 0u8..4).prop_map(|(v, p)| CidText::Payload(v, p)),
+        1 => (proptest::collection::vec(any::<u8>(), 160..long), 0u8..4).prop_map(|(v, p)| CidText::Payload(v, p)),
+        2 => (proptest::collection::vec(any::<u8>(), 32), proptest::collection::vec(any::<u8>(), 1..64)).prop_map(|(a, b)| CidText::Extended(a, b)),
+        1 => ".{0,80}".prop_map(CidText::Unicode),
+    ]
+}
+
+fn cid_oracle(c: &CidText, rec: &Rec) -> R {
+    use std::str::FromStr;
+    let (text, class) = match c {
+        CidText::Shape(tc) => (super::c15::text_case_string(tc), "shape"),
+        CidText::Payload(v, pad) => {
+            let mut s = base64::encode(v);
+            match pad % 4 {
+                1 => s = s.trim_end_matches('=').to_string(),
+                2 => s.push('='),
+                3 => s.push_str("=="),
+                _ => {}
+            }
+            (s, if v.len() > 32 { "payload>32" } else if v.len() == 32 { "payload=32" } else { "payload<32" })
+        }
+        CidText::Extended(a, b) => (format!("{}{}", base64::encode(a).trim_end_matches('='), base64::encode(b)), "honest+suffix"),
+        CidText::Unicode(s) => (s.clone(), "unicode"),
+    };
+    rec.eval(1);
+    let r = no_panic(|| zkabacus_crypto::ChannelId::from_str(&text).map(|id| id.to_bytes()));
+    match r {
+        Err(p) => Err(Fail::new(format!("C16/panic/channel-id-text/{}", panic_sig(&p)), format!("parsing a {}-character channel-id string panicked: {}", text.len(), p)).obs("panic", "a value or an error")),
+        Ok(res) => {
+            rec.class(&format!("cid-text/{}/{}", class, if res.is_ok() { "ok" } else { "err" }));
+            rec.nontrivial(text.clone());
+            rec.sample(&format!("cid-text/{}", class), || json!({"length": text.len(), "class": class, "parsed": res.is_ok()}));
+            Ok(())
+        }
+    }
+}
+
 fn checks_structured() -> Vec<CheckDef> {
-    vec![enum_check(
+    vec![crate::engine::prop_check(
+        "channel-id-text",
+        "cases = strings given to ChannelId::from_str: base64 of payloads of 0-160 bytes (and up to 16 KiB) with padding kept / stripped / extended, an honest id's text followed by further base64 groups, one altered character, printable garbage, arbitrary unicode; oracle: the call returns Ok or Err - no panic (allocation is not measured here: the decoder's requests are bounded by the string it is given); non-trivial = every case; distinct by string",
+        &["cid-text/payload>32/err", "cid-text/honest+suffix/err", "cid-text/shape/ok"],
+        (4000, 200_000),
+        cid_strategy,
+        cid_oracle,
+    ), enum_check(
         "decode-robustness",
         "enumerated mutations of honest encodings of every Deserialize type of both crates and the public element codecs (all N): every length-prefix position x {0, n-1, n+1, 2^32, 2^60, 2^64-1}; atoms x invalid-encoding table and random bytes; truncation at and inside atom boundaries; extension by 1-64 bytes; tag / byte atoms x small values; random strings of length 0-16 KiB; honest prefix + random tail (quick samples atom positions of big types, thorough enumerates all); each case decoded in an isolated worker process under a tracking allocator; oracle: the worker returns Ok or Err - no panic (caught, message reported), no process death, largest single allocation request <= 64 KiB + 32*len(input); distinct by (type, mutation)",
         &["length-prefix/n+1/err", "length-prefix/2^60/err", "truncated/err", "random-string/err"],
